@@ -163,9 +163,16 @@ MULT = {"LS-multiplicative", "DC-multiplicative", "QM-parametric-multiplicative"
 HAS_YEARS = {"QDM-absolute", "QDM-relative", "CDFt-additive", "CDFt-multiplicative"}
 
 
-def gen_case(rng, name, tier):
-    """a recipe (JSON-able) for one oracle case; `build(recipe)` turns it into arrays deterministically"""
+LARGE_AT = {"quick": (0,), "thorough": (0, 7, 19)}  # which occurrences of a CDFt configuration are "large sample" cases
+
+
+def gen_case(rng, name, tier, j=1):
+    """a recipe (JSON-able) for one oracle case (`j` = how often this configuration occurred before);
+    `build(recipe)` turns it into arrays deterministically"""
     windowed = rng.random() < 0.55
+    large = name.startswith("CDFt") and j in LARGE_AT.get(tier, (0,))
+    if large:
+        windowed = False  # one window with more than 10^4 values (>= 29 years of daily data)
     if windowed:
         S = rng.choice([1, 7, 15, 31, 61])
         L = max(S, rng.choice([31, 61, 91]))
@@ -176,14 +183,18 @@ def gen_case(rng, name, tier):
     else:
         mode = None
         nyO, nyF = rng.randint(1, 8), rng.randint(1, 8)
+        if large:
+            nyO, nyF = rng.randint(29, 32), rng.choice([rng.randint(3, 12), rng.randint(29, 32)])
     ymode = None
     if name in HAS_YEARS and rng.random() < 0.6:
         ymode = rng.choice([[17, 9], [5, 3], [3, 1], [1, 1], [9, 9]])
     rec = dict(config=name, mode=mode, ymode=ymode, nyO=nyO, nyF=nyF, y0=rng.randint(1950, 2000), yF=rng.randint(2001, 2080),
-               np_seed=rng.randint(0, 2**31 - 1), short=(not windowed and rng.random() < 0.3),
+               np_seed=rng.randint(0, 2**31 - 1), short=(not windowed and not large and rng.random() < 0.3),
                sd_ratio=rng.choice([0.5, 1.0, 1.0, 2.0]), shift=rng.choice([-6.0, -1.0, 0.0, 2.0, 10.0]), trend=rng.choice([0.0, 0.0, 0.5]))
     if name == "QDM-relative":
-        rec["censor"] = rng.random() < 0.5
+        rec["censor"] = j % 2 == 0  # every other case with censor_values_to_zero (the precipitation default)
+        # ... and then with cm_future values EXACTLY at the censoring threshold ("at or above" must survive)
+        rec["at_threshold"] = rng.choice([1, 3, 10]) if rec["censor"] else 0
     return rec
 
 
@@ -200,6 +211,11 @@ def build(rec):
             thr = 0.25
             obs = pr_series(nprs, dO, 3.0, floor=thr)
             F = pr_series(nprs, dF, 3.0 * rec["sd_ratio"] * 1.5, floor=thr)
+            k_at = min(int(rec.get("at_threshold", 0)), F.size)
+            if k_at:
+                # the threshold is a power of two: x * q / q == x exactly in floating point, so the comparison with the
+                # threshold inside the debiaser is not a matter of rounding
+                F[nprs.choice(F.size, size=k_at, replace=False)] = thr
             extra = dict(censor=rec.get("censor", False), censor_thr=thr)
         else:
             obs = pr_series(nprs, dO, 3.0, floor=0.01)
@@ -295,6 +311,27 @@ def other_pairs_note(rng, res):
     res.extra["cdft_other_pairs_max_deviation_unequal_sizes"] = notes
 
 
+def utils_inverse_large(rng, tier, res, problems):
+    """`ecdf(linear_interpolation)` and `iecdf(linear)` are inverse to each other on a tie-free sample
+    (Lemmas.Stats.ecdfLin_iecdfLinear / iecdfLinear_ecdfLin) — also for samples of more than 10^4 values"""
+    from ibicus.utils import ecdf, iecdf
+
+    for n in ([11000] if tier == "quick" else [10002, 11000, 15000, 40000]) + [rng.randint(2, 3000)]:
+        nprs = np.random.RandomState(rng.randint(0, 2**31 - 1))
+        x = 283 + 6 * nprs.standard_normal(n)
+        p = nprs.uniform(0, 1, 500)
+        y = nprs.uniform(x.min(), x.max(), 500)
+        with warnings.catch_warnings():
+            warnings.simplefilter("ignore")
+            e1 = float(np.max(np.abs(ecdf(x, iecdf(x, p, method="linear"), method="linear_interpolation") - p)))
+            e2 = float(np.max(np.abs(iecdf(x, ecdf(x, y, method="linear_interpolation"), method="linear") - y)))
+        res.count(("utils-inverse", n // 1000), True)
+        if e1 > 1e-9 or e2 > 1e-8 * 300:
+            problems.append((f"ibicus.utils ecdf(linear_interpolation) / iecdf(linear) are not inverse to each other on a tie-free sample of {n} values "
+                             f"(max |ecdf(iecdf(p)) - p| = {e1:.3g}, max |iecdf(ecdf(y)) - y| = {e2:.3g})",
+                             {"config": "utils-ecdf-iecdf", "n": n}))
+
+
 def run(tier, res, force_search=False):
     rng = random.Random(C.seed() * 7919 + 103)
     res.rule = ("tier B: cases = (configuration, stream, three dyadic series) of harness/debiasers_corr; oracle: cases = (configuration, window mode, "
@@ -328,7 +365,7 @@ def run(tier, res, force_search=False):
     problems, skipped, compared = [], 0, 0
     for k in range(n_or):
         name = ORACLE_CONFIGS[k % len(ORACLE_CONFIGS)]
-        rec = gen_case(rng, name, tier)
+        rec = gen_case(rng, name, tier, k // len(ORACLE_CONFIGS))
         try:
             p, info = run_case(rec)
         except Exception as ex:  # noqa: BLE001
@@ -342,6 +379,7 @@ def run(tier, res, force_search=False):
             problems.append((p, rec))
     res.extra["oracle"] = {"cases": n_or, "steps_compared": compared, "qm_steps_skipped_as_clipped": skipped, "tolerance": "1e-8*max(1,|values|)"}
     other_pairs_note(rng, res)
+    utils_inverse_large(rng, tier, res, problems)
 
     seen = set()
     for p, rec in problems:
@@ -361,6 +399,13 @@ def replay(data):
     if not rec:
         print("replay: no failing input recorded (broken tie):", data.get("broken"))
         return 1
+    if rec.get("config") == "utils-ecdf-iecdf":
+        import random as _r
+
+        probs = []
+        utils_inverse_large(_r.Random(0), "thorough", C.Result(PROP, "quick"), probs)
+        print("replay utils ecdf/iecdf ->", probs[0][0] if probs else "property holds")
+        return 1 if probs else 0
     p, info = run_case(rec)
     print("replay", rec["config"], "->", p or "property holds on this input", info)
     return 1 if p else 0
